@@ -247,6 +247,338 @@ theorem refuse_no_hunks_untouched (o : Options) (outputFile : Bytes) (p : Patch)
       s'.rejWritten = s.rejWritten :=
   ⟨_, refuse_no_hunks o outputFile p s hh, rfl, rfl, rfl, rfl⟩
 
+/-! ## the refusal test: what is patched must be a regular file (and a symbolic link only if the patch is about one)
+
+CHANGED with the model change "a symbolic link is only what is patched if the patch says that it is one; the new name of a rename
+or copy must be a regular file too".  New here. -/
+
+/-- `is_not_a_regular_file(path)` of `process_patch`, as a function of the tree: a symbolic link (`lstat`) unless the patch is
+    about a symbolic link, or something that exists (`stat`) and is not a regular file -/
+def notRegularAt (s : DState) (symPatch : Bool) (p : Bytes) : Bool :=
+  (!symPatch && (match s.fs.lookup (absPath s p) with | some (.symlink _) => true | _ => false)) ||
+  ((s.fs.stat (absPath s p)).isSome && !(match s.fs.stat (absPath s p) with | some (.file _ _) => true | _ => false))
+
+/-- the refusal test of `processSection` (a copy of the block that computes `refused` there; `section_refused` below runs
+    `processSection` through it) -/
+def refusedM (o : Options) (patch0 : Patch) (fileToPatch outputFile : Bytes) : DM Bool :=
+  let symPatch := isSymlinkMode patch0.oldMode || isSymlinkMode patch0.newMode
+  let notRegular (p : Bytes) : DM Bool := do
+    if !symPatch && (← fsIsSymlink p) then return true
+    return (← fsExists p) && !(← fsIsRegular p)
+  (do
+    if (← notRegular fileToPatch) then return true
+    if o.outFile.isEmpty && outputFile != fileToPatch && (← notRegular outputFile) then return true
+    return false : DM Bool)
+
+/-- what the test says, as a function of the tree -/
+def refusedAt (o : Options) (patch0 : Patch) (s : DState) (fileToPatch outputFile : Bytes) : Bool :=
+  notRegularAt s (isSymlinkMode patch0.oldMode || isSymlinkMode patch0.newMode) fileToPatch ||
+  (o.outFile.isEmpty && outputFile != fileToPatch &&
+    notRegularAt s (isSymlinkMode patch0.oldMode || isSymlinkMode patch0.newMode) outputFile)
+
+theorem run_fsIsSymlink (p : Bytes) (s : DState) : run (fsIsSymlink p) s =
+    (.ok (match s.fs.lookup (absPath s p) with | some (.symlink _) => true | _ => false), s) := rfl
+theorem run_fsExists (p : Bytes) (s : DState) : run (fsExists p) s = (.ok (s.fs.stat (absPath s p)).isSome, s) := rfl
+theorem run_fsIsRegular (p : Bytes) (s : DState) : run (fsIsRegular p) s =
+    (.ok (match s.fs.stat (absPath s p) with | some (.file _ _) => true | _ => false), s) := rfl
+
+theorem run_ite {α} (c : Prop) [Decidable c] (a b : DM α) (s : DState) :
+    run (if c then a else b) s = if c then run a s else run b s := by split <;> rfl
+
+/-- **the refusal test only looks, and says exactly `refusedAt`** -/
+theorem run_refusedM (o : Options) (patch0 : Patch) (ftp out : Bytes) (s : DState) :
+    run (refusedM o patch0 ftp out) s = (.ok (refusedAt o patch0 s ftp out), s) := by
+  unfold refusedM refusedAt notRegularAt
+  simp only [run_bind, run_fsIsSymlink, run_fsExists, run_fsIsRegular, run_ite, run_pure]
+  cases h1 : (!(isSymlinkMode patch0.oldMode || isSymlinkMode patch0.newMode) &&
+      match s.fs.lookup (absPath s ftp) with | some (Node.symlink _) => true | _ => false) <;>
+  cases h2 : ((s.fs.stat (absPath s ftp)).isSome &&
+      !match s.fs.stat (absPath s ftp) with | some (Node.file _ _) => true | _ => false) <;>
+  cases h3 : (!(isSymlinkMode patch0.oldMode || isSymlinkMode patch0.newMode) &&
+      match s.fs.lookup (absPath s out) with | some (Node.symlink _) => true | _ => false) <;>
+  cases h4 : ((s.fs.stat (absPath s out)).isSome &&
+      !match s.fs.stat (absPath s out) with | some (Node.file _ _) => true | _ => false) <;>
+  cases h5 : (List.isEmpty o.outFile && out != ftp) <;>
+  set_option linter.unusedSimpArgs false in
+  simp only [h1, h2, h3, h4, h5, Bool.false_eq_true, if_false, if_true, Bool.or_false, Bool.false_or, Bool.or_true,
+    Bool.true_or, Bool.and_false, Bool.false_and, Bool.and_true, Bool.true_and, Bool.or_self, Bool.and_self]
+
+
+theorem run_get_bind {β} (f : DState → DM β) (s : DState) : run (get >>= f) s = run (f s) s := run_bind_ok (run_get s)
+theorem run_modify_bind {β} (g : DState → DState) (f : PUnit → DM β) (s : DState) :
+    run (modify g >>= f) s = run (f ⟨⟩) (g s) := run_bind_ok (run_modify g s)
+theorem run_pure_bind {α β} (a : α) (f : α → DM β) (s : DState) : run (pure a >>= f) s = run (f a) s :=
+  run_bind_ok (run_pure a s)
+theorem run_emit_bind {β} (e : DEv) (f : Unit → DM β) (s : DState) :
+    run (emit e >>= f) s = run (f ()) { s with out := s.out ++ [e] } := run_bind_ok (run_emit e s)
+theorem run_liftE_ok_bind {α β} {x : Except Exn α} {a : α} (h : x = .ok a) (f : α → DM β) (s : DState) :
+    run (liftE x >>= f) s = run (f a) s := run_bind_ok (by rw [run_liftE, h])
+
+theorem doOp_tmp_keeps {op : FsOp} (hop : ∀ fs : Fs, fs.apply op = .ok fs) (s : DState) :
+    (run (doOp op) s).2.fs = s.fs ∧ (run (doOp op) s).2.cwd = s.cwd := by
+  rw [run_doOp, hop]
+  split <;> exact ⟨rfl, rfl⟩
+
+/-- `File::create_temporary` leaves the tree and the working directory alone -/
+theorem createTemp_keeps (s : DState) : (run createTemp s).2.fs = s.fs ∧ (run createTemp s).2.cwd = s.cwd := by
+  unfold createTemp
+  have h1 := doOp_tmp_keeps (op := .tmpCreate) (fun _ => rfl) s
+  rcases hr : run (doOp .tmpCreate) s with ⟨r, s1⟩
+  rw [hr] at h1
+  cases r with
+  | error e => rw [run_bind_error hr]; exact h1
+  | ok a =>
+    rw [run_bind_ok hr]
+    have h2 := doOp_tmp_keeps (op := .tmpUnlink) (fun _ => rfl) s1
+    exact ⟨h2.1.trans h1.1, h2.2.trans h1.2⟩
+
+theorem createTemp_touches {P} (s : DState) : Touches P s (run createTemp s).2 := by
+  unfold createTemp
+  exact touches_bind (touches_doOp _ s (by simp [FsOp.paths])) fun _ s' _ => touches_doOp _ s' (by simp [FsOp.paths])
+
+theorem createTemp_spec {P} {s s2 : DState} {rc : Except Exn Unit} (h : run createTemp s = (rc, s2)) :
+    s2.fs = s.fs ∧ s2.cwd = s.cwd ∧ Touches P s s2 := by
+  have h1 := createTemp_keeps s
+  have h2 := createTemp_touches (P := P) s
+  rw [h] at h1 h2
+  exact ⟨h1.1, h1.2, h2⟩
+
+theorem parseBodyM_keeps {b : Bool} {pt : Patch} {s s1 : DState} {r : Except Exn Patch}
+    (h : run (parseBodyM b pt) s = (r, s1)) : s1.cwd = s.cwd ∧ s1.trace = s.trace := by
+  unfold parseBodyM at h
+  split at h
+  · rw [run_get_bind] at h
+    cases hb : parseBody s.par pt with
+    | error e =>
+      rw [run_bind_error (e := e) (s' := s) (by rw [run_liftE, hb])] at h
+      cases h; exact ⟨rfl, rfl⟩
+    | ok x =>
+      rw [run_bind_ok (a := x) (s' := s) (by rw [run_liftE, hb])] at h
+      obtain ⟨p', par'⟩ := x
+      dsimp only at h
+      rw [run_modify_bind, run_pure] at h
+      cases h; exact ⟨rfl, rfl⟩
+  · cases h; exact ⟨rfl, rfl⟩
+
+/-- the statements of `processSection` after a refusal: the rest of the patch is read, the refusal is reported, the hunks go to
+    the reject file, the failure is recorded -/
+theorem refusal_block (o : Options) (out : Bytes) (spb : Bool) (patch0 : Patch) (s s' : DState) (r : Except Exn Bool)
+    (h : run (do
+        let p ← parseBodyM spb patch0
+        emit .notRegular
+        refuseToPatch o out p
+        failNow
+        pure true) s = (r, s')) :
+    (∃ ops, s'.trace = s.trace ++ ops ∧ ∀ op ∈ ops, ∀ q ∈ op.paths,
+      q = absPath s (rejectPath o out) ∨ ∃ d ∈ dirPrefixes (rejectPath o out), q = absPath s d) ∧
+    ∀ b, r = .ok b → b = true ∧ s'.hadFailure = true := by
+  rw [run_bind] at h
+  split at h
+  · next pt s1 hpb =>
+    obtain ⟨c1, t1⟩ := parseBodyM_keeps hpb
+    rw [run_emit_bind, run_bind] at h
+    split at h
+    · next u s2 hrf =>
+      obtain ⟨ops, e, hops⟩ := refuse_touches_only_rejects o out pt _ s2 _ hrf
+      unfold failNow at h
+      rw [run_modify_bind, run_pure] at h
+      cases h
+      refine ⟨⟨ops, ?_, ?_⟩, fun b hb => by cases hb; exact ⟨rfl, rfl⟩⟩
+      · rw [e]; exact congrArg (· ++ ops) t1
+      · intro op hop q hq
+        have := hops op hop q hq
+        simpa only [absPath, c1] using this
+    · next e s2 hrf =>
+      obtain ⟨ops, e, hops⟩ := refuse_touches_only_rejects o out pt _ s2 _ hrf
+      cases h
+      refine ⟨⟨ops, ?_, ?_⟩, fun b hb => by cases hb⟩
+      · rw [e]; exact congrArg (· ++ ops) t1
+      · intro op hop q hq
+        have := hops op hop q hq
+        simpa only [absPath, c1] using this
+  · next e s1 hpb =>
+    obtain ⟨c1, t1⟩ := parseBodyM_keeps hpb
+    cases h
+    exact ⟨⟨[], by simp [t1], by simp⟩, fun b hb => by cases hb⟩
+
+/-- **a section whose refusal test says `refusedAt` is refused** (file operand given; whatever the format, the operation, the
+    options, the fault schedule and the working directory): every operation of the section is on an anonymous temporary (no path)
+    or on the reject file and the directories leading to it — neither the target, nor a backup, nor the output file is touched —,
+    and a section that ends normally asks for the next one (`true`) with the failure flag set (exit status 1 at least).
+    (A section that does not end normally here was aborted by a malformed body, or by an I/O error on the temporary or the
+    reject file.) -/
+theorem section_refused (o : Options) (fmt : Format) (s s' : DState) (r : Except Exn Bool) (p : Bytes)
+    (spb : Bool) (patch0 : Patch) (info : HeaderInfo) (par1 : Parser)
+    (hop : o.fileToPatch = p) (hp : p ≠ [])
+    (hdr : parseHeader s.par { format := fmt } o.strip = .ok (spb, patch0, info, par1))
+    (hfmt : patch0.format ≠ .unknown) (hbin : patch0.operation ≠ .binary)
+    (href : refusedAt o patch0 s p (outputPath o patch0 p) = true)
+    (h : (processSection o fmt).run s = (r, s')) :
+    (∃ ops, s'.trace = s.trace ++ ops ∧ ∀ op ∈ ops, ∀ q ∈ op.paths,
+        q = absPath s (rejectPath o (outputPath o patch0 p)) ∨
+        ∃ d ∈ dirPrefixes (rejectPath o (outputPath o patch0 p)), q = absPath s d) ∧
+    (∀ b, r = .ok b → b = true ∧ s'.hadFailure = true) := by
+  have h : run (processSection o fmt) s = (r, s') := h
+  have hfu : (patch0.format == Format.unknown) = false := by simpa using hfmt
+  have hob : (patch0.operation == Operation.binary) = false := by simpa using hbin
+  have hpe : List.isEmpty p = false := by
+    cases p with
+    | nil => exact absurd rfl hp
+    | cons _ _ => rfl
+  unfold processSection at h
+  simp only [↓run_get_bind, ↓run_liftE_ok_bind hdr, ↓run_modify_bind, ↓run_pure_bind, hfu, hob, hop, hpe,
+    Bool.false_eq_true, ↓reduceIte, Bool.false_and] at h
+  rw [run_bind] at h
+  split at h
+  · next a s2 hct =>
+    obtain ⟨hfs, hcwd, -, ops1, t1, hops1⟩ := createTemp_spec (P := fun q =>
+      q = absPath s (rejectPath o (outputPath o patch0 p)) ∨
+        ∃ d ∈ dirPrefixes (rejectPath o (outputPath o patch0 p)), q = absPath s d) hct
+    have hfs : s2.fs = s.fs := hfs
+    have hcwd : s2.cwd = s.cwd := hcwd
+    have t1 : s2.trace = s.trace ++ ops1 := t1
+    have hre := run_refusedM o patch0 p (outputPath o patch0 p) s2
+    have e : refusedAt o patch0 s2 p (outputPath o patch0 p) = true := by
+      rw [← href]; unfold refusedAt notRegularAt absPath; rw [hfs, hcwd]
+    rw [e] at hre
+    unfold refusedM at hre
+    dsimp only at hre
+    rw [run_bind_ok hre, if_pos rfl] at h
+    obtain ⟨⟨ops2, t2, hops2⟩, hb⟩ := refusal_block o _ spb patch0 s2 s' r h
+    refine ⟨⟨ops1 ++ ops2, by rw [t2, t1, List.append_assoc], ?_⟩, hb⟩
+    intro op hop q hq
+    rcases List.mem_append.mp hop with h1 | h2
+    · exact hops1 op h1 q hq
+    · have := hops2 op h2 q hq
+      simpa only [absPath, hcwd] using this
+  · next e s2 hct =>
+    obtain ⟨-, -, -, ops1, t1, hops1⟩ := createTemp_spec (P := fun q =>
+      q = absPath s (rejectPath o (outputPath o patch0 p)) ∨
+        ∃ d ∈ dirPrefixes (rejectPath o (outputPath o patch0 p)), q = absPath s d) hct
+    cases h
+    exact ⟨⟨ops1, t1, hops1⟩, fun b hb => by cases hb⟩
+
+
+theorem refusedAt_of_symlink {o : Options} {patch0 : Patch} {s : DState} {p out t : Bytes}
+    (hsym : s.fs.lookup (absPath s p) = some (.symlink t))
+    (hold : isSymlinkMode patch0.oldMode = false) (hnew : isSymlinkMode patch0.newMode = false) :
+    refusedAt o patch0 s p out = true := by
+  unfold refusedAt notRegularAt
+  simp only [hsym, hold, hnew, Bool.or_false, Bool.not_false, Bool.and_self, Bool.true_or]
+
+theorem notRegularAt_of_stat {s : DState} {sym : Bool} {p : Bytes} {n : Node}
+    (hst : s.fs.stat (absPath s p) = some n) (hn : ∀ b m, n ≠ .file b m) : notRegularAt s sym p = true := by
+  unfold notRegularAt
+  rw [hst]
+  cases n with
+  | file b m => exact absurd rfl (hn b m)
+  | dir m => simp
+  | symlink t => simp
+  | other m => simp
+
+/-- the converse on the plain path: a regular file that is reached directly and is written in place passes the test -/
+theorem refusedAt_regular {o : Options} {patch0 : Patch} {s : DState} {p b : Bytes} {m : Nat}
+    (hfile : s.fs.lookup (absPath s p) = some (.file b m)) : refusedAt o patch0 s p p = false := by
+  unfold refusedAt notRegularAt
+  simp [hfile, Fs.stat]
+
+/-- **a symbolic link is not patched by a patch that is not about a symbolic link**: when the file operand names a symbolic link
+    (`lstat`; wherever it points to, a regular file included) and neither the old nor the new mode of the patch is that of a
+    symbolic link (`120000`), the section is refused: no operation other than those of the refusal (`refuse_touches_only_rejects`:
+    the reject file and the directories leading to it; the two operations on the anonymous temporary have no path) happens — so
+    neither the link, nor what it points to, nor a backup is touched —, and the failure flag is set. -/
+theorem symlink_target_refused (o : Options) (fmt : Format) (s s' : DState) (r : Except Exn Bool) (p t : Bytes)
+    (spb : Bool) (patch0 : Patch) (info : HeaderInfo) (par1 : Parser)
+    (hop : o.fileToPatch = p) (hp : p ≠ [])
+    (hdr : parseHeader s.par { format := fmt } o.strip = .ok (spb, patch0, info, par1))
+    (hfmt : patch0.format ≠ .unknown) (hbin : patch0.operation ≠ .binary)
+    (hsym : s.fs.lookup (absPath s p) = some (.symlink t))
+    (hold : isSymlinkMode patch0.oldMode = false) (hnew : isSymlinkMode patch0.newMode = false)
+    (h : (processSection o fmt).run s = (r, s')) :
+    (∃ ops, s'.trace = s.trace ++ ops ∧ ∀ op ∈ ops, ∀ q ∈ op.paths,
+        q = absPath s (rejectPath o (outputPath o patch0 p)) ∨
+        ∃ d ∈ dirPrefixes (rejectPath o (outputPath o patch0 p)), q = absPath s d) ∧
+    (∀ b, r = .ok b → b = true ∧ s'.hadFailure = true) :=
+  section_refused o fmt s s' r p spb patch0 info par1 hop hp hdr hfmt hbin (refusedAt_of_symlink hsym hold hnew) h
+
+/-- **the new name of a rename or copy must be a regular file if it exists**: without `-o`, when the output file is not the file
+    to patch (a git rename / copy) and exists as something that is not a regular file — a FIFO, device or socket (`.other m`), a
+    directory (`.dir m`), a link to a link —, the section is refused in the same way: only the reject file and its directories are
+    touched, and the failure flag is set. -/
+theorem nonregular_output_refused (o : Options) (fmt : Format) (s s' : DState) (r : Except Exn Bool) (p : Bytes)
+    (spb : Bool) (patch0 : Patch) (info : HeaderInfo) (par1 : Parser) (n : Node)
+    (hop : o.fileToPatch = p) (hp : p ≠ [])
+    (hdr : parseHeader s.par { format := fmt } o.strip = .ok (spb, patch0, info, par1))
+    (hfmt : patch0.format ≠ .unknown) (hbin : patch0.operation ≠ .binary)
+    (hout : o.outFile = []) (hne : outputPath o patch0 p ≠ p)
+    (hst : s.fs.stat (absPath s (outputPath o patch0 p)) = some n) (hn : ∀ b m, n ≠ .file b m)
+    (h : (processSection o fmt).run s = (r, s')) :
+    (∃ ops, s'.trace = s.trace ++ ops ∧ ∀ op ∈ ops, ∀ q ∈ op.paths,
+        q = absPath s (rejectPath o (outputPath o patch0 p)) ∨
+        ∃ d ∈ dirPrefixes (rejectPath o (outputPath o patch0 p)), q = absPath s d) ∧
+    (∀ b, r = .ok b → b = true ∧ s'.hadFailure = true) := by
+  refine section_refused o fmt s s' r p spb patch0 info par1 hop hp hdr hfmt hbin ?_ h
+  unfold refusedAt
+  rw [notRegularAt_of_stat hst hn, hout]
+  have : (outputPath o patch0 p != p) = true := by simpa using hne
+  simp [this]
+
+/-- the two cases the C++ comment names: a FIFO / device / socket, or a directory, at the new name -/
+theorem nonregular_output_refused' (o : Options) (fmt : Format) (s s' : DState) (r : Except Exn Bool) (p : Bytes)
+    (spb : Bool) (patch0 : Patch) (info : HeaderInfo) (par1 : Parser) (m : Nat)
+    (hop : o.fileToPatch = p) (hp : p ≠ [])
+    (hdr : parseHeader s.par { format := fmt } o.strip = .ok (spb, patch0, info, par1))
+    (hfmt : patch0.format ≠ .unknown) (hbin : patch0.operation ≠ .binary)
+    (hout : o.outFile = []) (hne : outputPath o patch0 p ≠ p)
+    (hst : s.fs.stat (absPath s (outputPath o patch0 p)) = some (.other m) ∨
+      s.fs.stat (absPath s (outputPath o patch0 p)) = some (.dir m))
+    (h : (processSection o fmt).run s = (r, s')) :
+    (∃ ops, s'.trace = s.trace ++ ops ∧ ∀ op ∈ ops, ∀ q ∈ op.paths,
+        q = absPath s (rejectPath o (outputPath o patch0 p)) ∨
+        ∃ d ∈ dirPrefixes (rejectPath o (outputPath o patch0 p)), q = absPath s d) ∧
+    (∀ b, r = .ok b → b = true ∧ s'.hadFailure = true) := by
+  rcases hst with hst | hst
+  · exact nonregular_output_refused o fmt s s' r p spb patch0 info par1 _ hop hp hdr hfmt hbin hout hne hst
+      (fun _ _ e => by cases e) h
+  · exact nonregular_output_refused o fmt s s' r p spb patch0 info par1 _ hop hp hdr hfmt hbin hout hne hst
+      (fun _ _ e => by cases e) h
+
+/-- the same for the file to patch itself (the test as it was before: something that exists and is not a regular file) -/
+theorem nonregular_target_refused (o : Options) (fmt : Format) (s s' : DState) (r : Except Exn Bool) (p : Bytes)
+    (spb : Bool) (patch0 : Patch) (info : HeaderInfo) (par1 : Parser) (n : Node)
+    (hop : o.fileToPatch = p) (hp : p ≠ [])
+    (hdr : parseHeader s.par { format := fmt } o.strip = .ok (spb, patch0, info, par1))
+    (hfmt : patch0.format ≠ .unknown) (hbin : patch0.operation ≠ .binary)
+    (hst : s.fs.stat (absPath s p) = some n) (hn : ∀ b m, n ≠ .file b m)
+    (h : (processSection o fmt).run s = (r, s')) :
+    (∃ ops, s'.trace = s.trace ++ ops ∧ ∀ op ∈ ops, ∀ q ∈ op.paths,
+        q = absPath s (rejectPath o (outputPath o patch0 p)) ∨
+        ∃ d ∈ dirPrefixes (rejectPath o (outputPath o patch0 p)), q = absPath s d) ∧
+    (∀ b, r = .ok b → b = true ∧ s'.hadFailure = true) := by
+  refine section_refused o fmt s s' r p spb patch0 info par1 hop hp hdr hfmt hbin ?_ h
+  unfold refusedAt
+  rw [notRegularAt_of_stat hst hn, Bool.true_or]
+
+-- whole runs (compiled evaluation of the model: tests, not proofs).  `patch l` where `l -> f`: refused, `l.rej` written, `f` and `l` as
+-- they were, exit status 1
+#guard (runPatch { defaultOptions with fileToPatch := [108] }
+    { fs := { nodes := [([102], .file [97, 10] 0o644), ([108], .symlink [102])] },
+      stdin := str "--- l\n+++ l\n@@ -1 +1 @@\n-a\n+b\n" }).2.trace.filter (!·.isTmp) |>.map (·.paths) |>.all (· == [str "l.rej"])
+def symS : DState :=
+  { fs := { nodes := [([102], .file [97, 10] 0o644), ([108], .symlink [102])] },
+    stdin := str "--- l\n+++ l\n@@ -1 +1 @@\n-a\n+b\n" }
+#guard (runPatch { defaultOptions with fileToPatch := [108] } symS).1 == 1
+#guard (runPatch { defaultOptions with fileToPatch := [108] } symS).2.fs.lookup [102] == some (.file [97, 10] 0o644)
+#guard (runPatch { defaultOptions with fileToPatch := [108] } symS).2.fs.lookup [108] == some (.symlink [102])
+-- a git rename onto a directory `d`: refused, `f` stays
+def renS : DState :=
+  { fs := { nodes := [([102], .file [97, 10] 0o644), ([100], .dir 0o755)] },
+    stdin := str "diff --git a/f b/d\nsimilarity index 50%\nrename from f\nrename to d\n--- a/f\n+++ b/d\n@@ -1 +1 @@\n-a\n+b\n" }
+#guard (runPatch defaultOptions renS).1 == 1
+#guard (runPatch defaultOptions renS).2.fs.lookup [102] == some (.file [97, 10] 0o644)
+#guard (runPatch defaultOptions renS).2.fs.lookup [100] == some (.dir 0o755)
+#guard (runPatch defaultOptions renS).2.out.contains .notRegular
+
 #print axioms readonly_fail_untouched
 #print axioms fixPermissions_reads_only
 #print axioms section_chmod_late
@@ -259,5 +591,12 @@ theorem refuse_no_hunks_untouched (o : Options) (outputFile : Bytes) (p : Patch)
 #print axioms refuse_no_hunks_untouched
 #print axioms chmod_late_direct
 #print axioms chmod_directly_false
+#print axioms run_refusedM
+#print axioms section_refused
+#print axioms symlink_target_refused
+#print axioms nonregular_output_refused
+#print axioms nonregular_output_refused'
+#print axioms nonregular_target_refused
+#print axioms refusedAt_regular
 
 end PatchModel.C17
